@@ -32,3 +32,9 @@ func C13Unsubscribe(p *RedisPubsubPeers) {
 		p.sub.Close()
 	}
 }
+
+// C13Hash is the hash of the peer list that checkHash stored last (checkHash
+// starts the change callbacks exactly when it stores a new one). The harness
+// uses it only as a barrier: it waits for the callbacks after a step in which
+// the value changed. Read it only while no listen() is running.
+func C13Hash(p *RedisPubsubPeers) uint64 { return p.hash }
